@@ -8,6 +8,16 @@ every instance with the simultaneous solution it computed.  Each instance become
 what CouplingStructure / DependencyGraph / MDAChain / MDOChain / MDOParallelChain / MDOInitializationChain
 return is fed back to TLC (DepGraphReport.tla) which evaluates the relation, the documented coupling sets
 and the exactness of the executed data and prints the set of failed clauses per instance.
+
+MDAChain options (kind "mdaopt"): DepGraph.tla defines which groups of a valid sequence get an inner MDA
+(NeedsMDA), whose structure the k-th user-provided sub coupling structure is (UserStructures, InnerMDAPlan),
+the option space of MDAChain_Settings (MDAOptionSpace: inner MDA class, sub_coupling_structures,
+coupling_structure, mdachain_parallelize_tasks, chain_linearize, initialize_defaults with complete / partial
+defaults, n_processes) and the evaluation of the chain under the semantic options (MDAChainEval, theorem
+MDAChainOptionsTheorem: always Mono).  TLC selects a pseudo-random part of the option space per instance
+(SelectedOptions, printed in the CASE record); each selected record is one more MDAChain construction and
+execution, judged by OptClauses of DepGraphReport.tla (Exact, ExecutionOrder, InnerMDAs, InnerMDAOrder,
+InnerStructures; Applicable / UserStructures check the harness itself).
 """
 from __future__ import annotations
 
@@ -21,7 +31,8 @@ from . import c08_impl as impl
 
 THEOREMS = ["SCCPartition", "CondensationAcyclic", "PeelInv", "ConstructionValid", "ScheduleRespectsDependencies",
             "NoEmptyStage",
-            "CouplingFacts", "Nilpotent", "CompositionTheorem", "InitChainTheorem"]
+            "CouplingFacts", "Nilpotent", "CompositionTheorem", "InitChainTheorem",
+            "MDAGroupsTheorem", "InitDefaultsTheorem", "MDAChainOptionsTheorem"]
 ACTIONS = ("Build", "Condense", "Peel", "Reverse")
 # the models are small: a 2 GB heap is plenty (other checks run on the same machine); deeper thread stacks for
 # the recursive operators evaluated under -coverage
@@ -29,11 +40,12 @@ JVM = {"JAVA_TOOL_OPTIONS": "-XX:+UseParallelGC -Xmx2g -Xss16m"}
 
 
 def consts(fam="E", nmin=1, nmax=3, order="all", loops="all", privs=(True, False), dups=(False,), uk=2,
-           mod=1, key=0, pick=0, emit=False):
+           mod=1, key=0, pick=0, emit=False, ninner=5, optmod=0):
     b = lambda xs: "{" + ", ".join("TRUE" if x else "FALSE" for x in xs) + "}"  # noqa: E731
     return (f'CONSTANTS\n Fam = "{fam}"\n NMin = {nmin}\n NMax = {nmax}\n OrderMode = "{order}"\n'
             f' LoopMode = "{loops}"\n Privs = {b(privs)}\n Dups = {b(dups)}\n UK = {uk}\n'
-            f' SampleMod = {mod}\n SampleKey = {key}\n Pick = {pick}\n Emit = {"TRUE" if emit else "FALSE"}\n')
+            f' SampleMod = {mod}\n SampleKey = {key}\n Pick = {pick}\n Emit = {"TRUE" if emit else "FALSE"}\n'
+            f' NInner = {ninner}\n OptMod = {optmod}\n')
 
 
 def cfg(theorems=True, **kw):
@@ -54,35 +66,35 @@ def plan(ck: Check):
     runs = []
     if not ck.thorough:
         # every graph on <= 3 disciplines, self-loops, all listing orders, private x_d / y_d
-        runs.append(("E<=3", dict(nmin=1, nmax=3, privs=(True,)), True, ("mdachain", "chain", "initchain")))
+        runs.append(("E<=3", dict(nmin=1, nmax=3, privs=(True,), optmod=479), True, ("mdachain", "chain", "initchain")))
         # the same graphs without private variables (empty grammars, isolated disciplines without data)
         runs.append(("E<=3 bare", dict(nmin=1, nmax=3, privs=(False,), order="id"), True, full))
         # duplicated discipline names (sample)
         runs.append(("E<=3 dup", dict(nmin=2, nmax=3, privs=(True,), dups=(True,), mod=7, key=key), True, ("mdachain",)))
         # n = 4: sampled with self-loops, rotations of the listing order
-        runs.append(("E4 sample", dict(nmin=4, nmax=4, order="rot", privs=(True,), mod=401, key=key), True,
+        runs.append(("E4 sample", dict(nmin=4, nmax=4, order="rot", privs=(True,), mod=401, key=key, optmod=157), True,
                      ("mdachain", "chain", "initchain")))
         # name sets over {a, b}: shared variables, fan-out, several producers
         runs.append(("N<=2x2", dict(fam="N", nmin=1, nmax=2, uk=2), True, full))
-        runs.append(("N3x2 sample", dict(fam="N", nmin=3, nmax=3, uk=2, mod=5, key=key), True, full))
+        runs.append(("N3x2 sample", dict(fam="N", nmin=3, nmax=3, uk=2, mod=5, key=key, optmod=239), True, full))
         # beyond the exhaustive sizes: 5 disciplines, codes spread over the 2^25 graphs
-        runs.append(("E5 sample", dict(nmin=5, nmax=5, order="id", privs=(True,), pick=150, key=key), True,
+        runs.append(("E5 sample", dict(nmin=5, nmax=5, order="id", privs=(True,), pick=150, key=key, optmod=79), True,
                      ("mdachain", "initchain")))
         # theorems only (no replay, checked while the real code runs): every edge set on 4 disciplines
         runs.append(("E4 theorems", dict(nmin=4, nmax=4, order="id", loops="none", privs=(True,)), False, ()))
     else:
-        runs.append(("E<=3", dict(nmin=1, nmax=3), True, full + ("mdachain_gs", "mdachain_par")))
+        runs.append(("E<=3", dict(nmin=1, nmax=3, optmod=157), True, full + ("mdachain_gs", "mdachain_par")))
         runs.append(("E<=3 dup", dict(nmin=2, nmax=3, privs=(True,), dups=(True,)), True, ("mdachain", "chain")))
-        runs.append(("E4 no self-loop", dict(nmin=4, nmax=4, order="rot", loops="none", privs=(True,)), True,
+        runs.append(("E4 no self-loop", dict(nmin=4, nmax=4, order="rot", loops="none", privs=(True,), optmod=479), True,
                      ("mdachain", "chain", "parchain", "initchain")))
-        runs.append(("E4 self-loops sample", dict(nmin=4, nmax=4, order="rot", mod=53, key=key),
+        runs.append(("E4 self-loops sample", dict(nmin=4, nmax=4, order="rot", mod=53, key=key, optmod=157),
                      True, ("mdachain", "chain", "initchain")))
-        runs.append(("N<=2x3", dict(fam="N", nmin=1, nmax=2, uk=3), True, full))
-        runs.append(("N3x2", dict(fam="N", nmin=3, nmax=3, uk=2), True, full))
-        runs.append(("N3x3 sample", dict(fam="N", nmin=3, nmax=3, uk=3, mod=41, key=key), True, full))
+        runs.append(("N<=2x3", dict(fam="N", nmin=1, nmax=2, uk=3, optmod=157), True, full))
+        runs.append(("N3x2", dict(fam="N", nmin=3, nmax=3, uk=2, optmod=157), True, full))
+        runs.append(("N3x3 sample", dict(fam="N", nmin=3, nmax=3, uk=3, mod=41, key=key, optmod=157), True, full))
         # theorems only (no replay): every one of the 65 536 graphs with self-loops on 4 disciplines
         runs.append(("E4 theorems", dict(nmin=4, nmax=4, order="id", privs=(True,)), False, ()))
-        runs.append(("E5 sample", dict(nmin=5, nmax=5, order="rot", privs=(True,), pick=600, key=key), True,
+        runs.append(("E5 sample", dict(nmin=5, nmax=5, order="rot", privs=(True,), pick=600, key=key, optmod=97), True,
                      ("mdachain", "chain", "initchain")))
         runs.append(("N3x4 sample", dict(fam="N", nmin=3, nmax=3, uk=4, pick=3000, key=key), True, full))
     only = os.environ.get("VERIF_C08_ONLY")
@@ -97,6 +109,8 @@ def sig_of(case, tag, clause):
 
 def run(ck: Check):
     n_proc = min(12 if ck.thorough else 8, os.cpu_count() or 2)
+    n_proc = int(os.environ.get("VERIF_C08_PROCS") or n_proc)
+    tw = 2 if os.environ.get("VERIF_C08_PROCS") else 4      # TLC workers (fewer when a builder shares the machine)
     cases: list = []      # (case, kinds)
     sets = ck.extra.setdefault("instance_sets", {})
     # worker processes for the real code: forked now, before any thread exists, with gemseo already imported
@@ -105,7 +119,8 @@ def run(ck: Check):
 
     def theorems_only(label, kw):
         # same bookkeeping as Check.tlc, in a work directory of its own (it runs beside the other TLC runs)
-        r = run_tlc("DepGraph", cfg(**kw), ck.work / "theorems", workers=8, timeout=1700, env=JVM)
+        r = run_tlc("DepGraph", cfg(**kw), ck.work / "theorems", workers=2 if os.environ.get("VERIF_C08_PROCS") else 8,
+                    timeout=1700, env=JVM)
         ck.tlc_runs.append({"module": "DepGraph", "distinct": r.distinct, "generated": r.generated, "depth": r.depth,
                             "wall_s": round(r.wall, 2), "coverage": {k: v[0] for k, v in r.coverage.items()},
                             "set": label})
@@ -124,7 +139,7 @@ def run(ck: Check):
     for label, kw, emit, kinds in plan(ck):
         if not emit:
             continue
-        r = ck.tlc("DepGraph", cfg(emit=True, **kw), workers=4, timeout=1500, require_actions=ACTIONS + ("EmitCase",),
+        r = ck.tlc("DepGraph", cfg(emit=True, **kw), workers=tw, timeout=1500, require_actions=ACTIONS + ("EmitCase",),
                    env=JVM)
         got = [impl.case_from_tlc(v) for v in r.printed() if isinstance(v, tuple) and v and v[0] == "CASE"]
         n_init = _count_init(r)
@@ -134,6 +149,9 @@ def run(ck: Check):
         got.sort(key=lambda c: json.dumps(c["code"], sort_keys=True))   # TLC's workers print in any order
         for c in got:
             ks = [k for k in kinds if c["consistent"] and (k not in ("chain", "parchain") or c["singletons"])]
+            # MDAChain under the option records TLC selected for this instance (SelectedOptions)
+            ks += [("mdaopt", o, j + 1) for j, o in enumerate(c["opts"])]
+            c["sel"] = [kw.get("optmod", 0), kw.get("ninner", 5), kw.get("key", 0)]
             cases.append((c, ks))
     # ---- the real code, in worker processes
     jobs = [(i + 1, c, ks) for i, (c, ks) in enumerate(cases)]
@@ -148,8 +166,9 @@ def run(ck: Check):
     for b0 in range(0, len(reports), batch):
         part = reports[b0:b0 + batch]
         f = ck.work / f"reports-{b0}.json"
-        f.write_text(json.dumps([{k: v for k, v in rep.items() if k != "errors"} for rep in part]))
-        r = ck.tlc("DepGraphReport", report_cfg(), workers=4, timeout=1500, env=dict(JVM, REPORT_FILE=str(f)),
+        f.write_text(json.dumps([dict({k: v for k, v in rep.items() if k != "errors"},
+                                      sel=cases[rep["id"] - 1][0]["sel"]) for rep in part]))
+        r = ck.tlc("DepGraphReport", report_cfg(), workers=tw, timeout=1500, env=dict(JVM, REPORT_FILE=str(f)),
                    coverage=False, count=False)
         ck.states += r.distinct
         ck.transitions += r.generated
@@ -172,7 +191,7 @@ def run(ck: Check):
                     if "structure" in rep["errors"]:
                         detail["traceback"] = rep["errors"]["structure"]
                 else:
-                    run_ = next(x for x in rep["runs"] if x["kind"] == tag)
+                    run_ = next(x for x in rep["runs"] if x.get("tag", x["kind"]) == tag)
                     detail["run"] = run_
                     detail["expected_data"] = case["mono"]
                     detail["sequence"] = rep["seq"]
@@ -181,11 +200,16 @@ def run(ck: Check):
                     detail["defaults"] = case["x0"]
                     if tag in rep["errors"]:
                         detail["traceback"] = rep["errors"][tag]
-                sig = sig_of(case, tag, clause)
+                sig = sig_of(case, tag.split("#")[0], clause)
+                if tag.startswith("mdaopt"):
+                    if clause in ("UserStructures",):
+                        raise MachineryError(f"the harness did not pass the sub coupling structures the specification "
+                                             f"names: {case['code']} {run_['opt']} {run_['user']}")
+                    sig.update({k: run_["opt"][k] for k in ("inner", "sub", "par", "init")})
                 if clause == "Runs" or clause == "Constructs":
                     st = (rep["status"] if tag == "structure" else run_["status"])
                     sig["exception"] = st.split(":", 1)[-1]
-                ck.violation(f"{tag}:{clause}", sig, detail)
+                ck.violation(f"{tag.split('#')[0]}:{clause}", sig, detail)
     for fut in pending:
         fut.result()          # a failure of a theorem-only run is raised here
     background.shutdown()
@@ -194,6 +218,24 @@ def run(ck: Check):
         ck.sample({"code": c["code"], "ins": c["ins"], "outs": c["outs"], "expected_data": c["mono"],
                    "executions": ks, "reported_sequence": by_id[i + 1]["seq"]})
     ck.extra["executions_of_chains"] = n_runs
+    # vacuity of the option dimension: what ran
+    oruns = [x for rep in reports for x in rep["runs"] if x["kind"] == "mdaopt"]
+    by = lambda f: {str(k): sum(1 for x in oruns if f(x) == k) for k in sorted({f(x) for x in oruns}, key=str)}  # noqa: E731
+    several = [x for x in oruns if x["opt"]["sub"] == "user" and len(x["user"]) >= 2]
+    shifted = [x for x in several if any(len(u) == 1 for u in x["user"][:-1]) and any(len(u) > 1 for u in x["user"][1:])]
+    ck.extra["mdachain_option_runs"] = {
+        "runs": len(oruns), "by_inner_mda": by(lambda x: x["opt"]["inner"]), "by_sub": by(lambda x: x["opt"]["sub"]),
+        "by_init": by(lambda x: x["opt"]["init"]), "parallel_tasks": sum(1 for x in oruns if x["opt"]["par"]),
+        "coupling_structure_given": sum(1 for x in oruns if x["opt"]["cs"]),
+        "chain_linearize": sum(1 for x in oruns if x["opt"]["lin"]),
+        "n_processes_2": sum(1 for x in oruns if x["opt"]["np"] == 2),
+        "distinct_option_records": len({json.dumps(x["opt"], sort_keys=True) for x in oruns}),
+        "user_structures_for_several_inner_mdas": len(several),
+        "self_coupled_singleton_structure_before_a_group_structure": len(shifted)}
+    if any(kw.get("optmod") for _, kw, emit, _ in plan(ck) if emit) and not os.environ.get("VERIF_C08_ONLY"):
+        want = 5
+        if len(ck.extra["mdachain_option_runs"]["by_inner_mda"]) < want or not shifted:
+            raise MachineryError(f"vacuity: MDAChain option runs {ck.extra['mdachain_option_runs']}")
     ck.extra["worker_processes"] = n_proc
     # every instance of the enumerated sets was replayed and judged by TLC, unless a set is theorems-only
     ck.exhaustive = all(emit for _, _, emit, _ in plan(ck))
@@ -204,6 +246,16 @@ def run(ck: Check):
         "neither in a cycle nor self-coupled)",
         "exact composition is demanded only where each name has a single producer (Consistent); MDOChain and "
         "MDOParallelChain only where no two disciplines are mutually dependent",
+        "MDAChain options: sub_coupling_structures are given one per inner MDA (groups with >= 2 members and "
+        "self-coupled singletons), in the order of the execution sequence, which is the order of inner_mdas; the "
+        "data returned must not depend on inner_mda_name, coupling_structure, sub_coupling_structures, "
+        "mdachain_parallelize_tasks, chain_linearize, n_processes, initialize_defaults (chain_linearize is a "
+        "construction flag here: the Jacobians belong to C09/C07)",
+        "inner MDAs that solve linear systems in floating point (MDANewtonRaphson, MDAQuasiNewton, MDAGSNewton): a "
+        "value within 1e-6 of an integer is transported to TLC as that integer; MDAJacobi / MDAGaussSeidel: exact",
+        "initialize_defaults: the log starts with one pass of the initialization chain (any order in which every "
+        "discipline finds its inputs among the given defaults and earlier outputs); later executions with unchanged "
+        "inputs may be served by the disciplines' caches",
     ]
 
     # ---- specification growth (outside C08 as stated): namespaces and the grammar / data-flow construction
